@@ -187,8 +187,15 @@ def coqchk_mx(chk):
             continue
         if sect == "Axioms" and line.strip():
             axioms.append(line.strip())
-    chk.oblige("coqchk", "coqchk -o CE.Properties.C12Mx", rc == 0 and not axioms,
-               "axioms of all loaded libraries: none" if rc == 0 and not axioms else f"rc={rc} axioms={axioms} tail={out[-400:]}")
+    # C12Mx now also contains the list-model transport (LinAlgBridge / GeoRankBridge), whose dependencies load the stdlib Reals and
+    # Coq-Interval libraries: the axioms of ALL loaded libraries are therefore the allow-listed ones (each theorem's own
+    # `Print Assumptions` -- "Closed under the global context" for every C12Mx theorem -- is checked by check_theorems)
+    short = [a.replace("Coq.Logic.", "").replace("Coq.Reals.", "").replace("Coq.Numbers.Cyclic.Int63.", "").replace("Coq.Floats.", "")
+             for a in axioms]
+    bad = [a for a in short if a not in lib.ALLOWED_AXIOMS and not a.startswith(lib.ALLOWED_AXIOM_PREFIXES)]
+    ok = rc == 0 and not bad
+    chk.oblige("coqchk", "coqchk -o CE.Properties.C12Mx", ok,
+               f"axioms of all loaded libraries: {', '.join(short) or 'none'}" if ok else f"rc={rc} bad axioms={bad} tail={out[-400:]}")
 
 
 def entropy_case_body(P, S_, k, svl, insl):
@@ -251,9 +258,11 @@ def run(chk):
         "is the number of neighbours with value <= 1, and the implementation's sum over singular vectors equals it given an exact "
         "eigen-decomposition as hypothesis; for k < d the returned 0 is justified at the mathcomp level only); for d = 1 and d = 2 the value is "
         "additionally enclosed with NO recorded SVD data (d = 1: exact rational; d = 2: closed form with a square root)",
-        "rank <= k of the centred neighbourhood: proved for abstract mathcomp matrices (GeoRankMx.v / Properties/C12Mx.v); on the list model "
-        "(Model/GeoRank.v) the column-sum fact is proved, the determinants (cofactor expansion over Z, cross-checked against Model/Gauss.v's "
-        "pivots over Q) are EVALUATED on every recorded neighbourhood; no refinement between 'M_(m,n) and lists is proved (as in C08/C08Mx)",
+        "rank <= k of the centred neighbourhood: proved for abstract mathcomp matrices (GeoRankMx.v) AND transported to the executable list "
+        "functions (LinAlgBridge.v, GeoRankBridge.v, Properties/C12Mx.v LIST MODEL): zdet IS the determinant, centred IS (k+1) x the mathcomp "
+        "centring, both Gram determinants of a centred neighbourhood vanish (k < d for the d x d one) and Model/Gauss.v's elimination meets a "
+        "zero pivot, for EVERY well-shaped input; Model/GeoRank.rank_one is thereby reduced (theorem) to its comparisons with the recorded "
+        "singular values; these list functions are still EVALUATED on every recorded neighbourhood, which ties the theorem's subject to the code",
         "harness/props/C12.py: scaling of dyadic samples to integers, recovery of the neighbour lists from the spy's SVD inputs, "
         "the explicit-loop evaluation of the published formula used as the property predicate, the genericity filter",
         "scipy cdist / gamma are compared, not modelled"]
